@@ -13,7 +13,12 @@
    name block becomes the token of its name, every other run becomes one unknown license whose key
    is its words joined by single spaces, and if these tokens spell a derivation e of the grammar
    (WITH triples grouped first), parse returns tree_or e. Premise: U+0020 is white space.
-   Proofs/Segments.v (the matcher yields exactly one token per segment) and Proofs/Blocks.v. *)
+   Proofs/Segments.v (the matcher yields exactly one token per segment) and Proofs/Blocks.v.
+   Over tables without operator words the proviso is a theorem (C02_layout_parses_over_plain_tables, Proofs/Layout.v): cut the
+   non-blank pieces of a text into groups, one per item of a derivation - an operator or parenthesis in any letter case, a
+   known license spelled by any of its names in any case, or a run of other words in which no stored name occurs - and parse
+   returns the tree of the derivation.  No premise about the matches reported by the scan is left: a name without operator
+   words cannot match across an operator, and two licenses are never adjacent in a derivation. *)
 Require Import Model.Base Model.Expr Model.Split Model.Trie Model.LicTok Model.BoolParse Model.Licensing.
 Require Import Proofs.BoolParse Proofs.WithGroup Proofs.Trie Proofs.Segments Proofs.Blocks Proofs.SimpleAgree.
 
@@ -96,5 +101,47 @@ Proof.
   - vm_compute. reflexivity.
   - vm_compute. reflexivity.
   - repeat constructor; vm_compute; try reflexivity; try discriminate.
+  - vm_compute. reflexivity.
+Qed.
+
+Require Import Proofs.Reparse Proofs.Layout Proofs.Render.
+Theorem C02_layout_parses_over_plain_tables : forall O, is_space O 32%N = true ->
+  (lower O S_AND = s_and /\ lower O S_OR = s_or /\ lower O S_WITH = s_with /\ lower O s_lpar = s_lpar /\ lower O s_rpar = s_rpar) ->
+  (forall c, In c [97; 110; 100; 111; 114; 119; 105; 116; 104; 40; 41]%N -> is_space O c = false /\ lower_ch O c = [c]) ->
+  forall T : list entry,
+  (forall n v, In (n, v) (flat_map (entry_adds O) T) -> forall w, In w (lwords O n) -> is_keyword_str w = false) ->
+  forall text (gus : list (list piece * unit_)) (d : orx),
+  concat (map fst gus) = filter (is_word_piece O) (pieces O text) ->
+  (forall g k, In (g, UK k) gus -> exists p, g = [p] /\ lower O (ptext p) = kw_str k) ->
+  (forall g s, In (g, US s) gus ->
+     g <> [] /\ (forall p, In p g -> is_keyword_str (lower O (ptext p)) = false) /\ (known_group O T g s \/ unknown_group O T g s)) ->
+  alt sepu (map snd gus) ->
+  map snd gus = flat_map units_of (map kind_of (tok_or d)) ->
+  parse_tokens O T false false text = Ok (tree_or d).
+Proof. exact layout_parses_derivation. Qed.
+Print Assumptions C02_layout_parses_over_plain_tables.
+
+(* the premises are satisfiable: the text of C02_text_example again, with no premise about matches *)
+Definition gus0 : list (list piece * unit_) :=
+  [([p0; p1], US gpl); ([p2], UK KOr); ([p3], UK KLp); ([p4; p5], US zzyy); ([p6], UK KRp)].
+Example C02_layout_example : parse_tokens ascii_oracle C02_T0 false false tx = Ok (Or [Lit (Plain gpl); Lit (Plain zzyy)]).
+Proof.
+  change (Or [Lit (Plain gpl); Lit (Plain zzyy)]) with (tree_or ex).
+  apply (C02_layout_parses_over_plain_tables ascii_oracle eq_refl) with (gus := gus0).
+  - repeat split; reflexivity.
+  - intros c Hc. simpl in Hc. repeat (destruct Hc as [<-|Hc]; [split; reflexivity|]). destruct Hc.
+  - intros n v Hin w Hw. vm_compute in Hin. repeat (destruct Hin as [Hin|Hin]; [inversion Hin; subst n v; vm_compute in Hw; repeat (destruct Hw as [<-|Hw]; [vm_compute; reflexivity|]); destruct Hw|]). destruct Hin.
+  - vm_compute. reflexivity.
+  - intros g k Hin. simpl in Hin. repeat (destruct Hin as [Hin|Hin]; [inversion Hin; subst; eexists; split; reflexivity|]). destruct Hin.
+  - intros g s Hin. simpl in Hin. destruct Hin as [Hin|[Hin|[Hin|[Hin|[Hin|[]]]]]]; inversion Hin; subst g s.
+    + split; [discriminate|]. split; [intros p Hp; simpl in Hp; repeat (destruct Hp as [<-|Hp]; [vm_compute; reflexivity|]); destruct Hp|].
+      left. eexists. vm_compute. reflexivity.
+    + split; [discriminate|]. split; [intros p Hp; simpl in Hp; repeat (destruct Hp as [<-|Hp]; [vm_compute; reflexivity|]); destruct Hp|].
+      right. split; [|vm_compute; reflexivity].
+      intros a m c E Hm.
+      apply (no_occurrence_check ascii_oracle C02_T0 (lws ascii_oracle [p4; p5]) ltac:(vm_compute; reflexivity)
+               (lws ascii_oracle a) (lws ascii_oracle m) (lws ascii_oracle c));
+        [rewrite E; unfold lws; rewrite !map_app; reflexivity | destruct m; [contradiction | discriminate]].
+  - simpl. tauto.
   - vm_compute. reflexivity.
 Qed.
